@@ -188,19 +188,21 @@ def Key.locksPush (k : Key) (rid : Nat) : Key :=
   if len < k.locksCap then { k with locks := k.locks ++ [rid] }
   else if k.locks.isEmpty then { k with locks := [rid], locksPopped := 0 }
   else
+    -- compaction: tombstoned entries are dropped (`refCount--`, freed at 0), live ones move to the front
     let dead := k.locks.filter (fun x => !k.liveHolder x)
     let kept := k.locks.filter (fun x => k.liveHolder x)
-    let k1 := dead.foldl (fun k x => k.unref x) k
-    if kept.length < len then { k1 with locks := kept ++ [rid], locksPopped := 0 }
-    else { k1 with locks := kept ++ [rid], locksCap := 2 * k.locksCap }
+    let k1 : Key := if kept.length < len then { k with locks := kept ++ [rid], locksPopped := 0 }
+                    else { k with locks := kept ++ [rid], locksCap := 2 * k.locksCap }
+    dead.foldl (fun k x => k.unref x) k1
 
-/-- pop tombstoned heads (`refCount--`, freed at 0) up to the first live entry; `take` = that entry is popped too and returned -/
+/-- pop tombstoned heads (`refCount--`, freed at 0) up to the first live entry; `take` = that entry is popped too and returned.
+Called with the queue itself as the list argument. -/
 def locksSkip (take : Bool) : List Nat → Key → Key × Option Nat
-  | [], k => ({ k with locks := [] }, none)
+  | [], k => (k, none)
   | x :: rest, k =>
     if k.liveHolder x then
-      (if take then ({ k with locks := rest, locksPopped := k.locksPopped + 1 }, some x) else ({ k with locks := x :: rest }, some x))
-    else locksSkip take rest ({ k with locksPopped := k.locksPopped + 1 }.unref x)
+      (if take then ({ k with locks := rest, locksPopped := k.locksPopped + 1 }, some x) else (k, some x))
+    else locksSkip take rest ({ k with locks := rest, locksPopped := k.locksPopped + 1 }.unref x)
 
 /-- `LockManager.RemoveLock` -/
 def Key.removeLock (k : Key) (rid : Nat) : Key :=
@@ -233,9 +235,9 @@ def Key.waitPush (k : Key) (e : WEnt) : Key :=
     else
       let dead := k.wait.filter (fun x => k.deadWaiter x.rid)
       let kept := k.wait.filter (fun x => !k.deadWaiter x.rid)
-      let k1 := dead.foldl (fun k x => k.unref x.rid) k
-      if kept.length < len then { k1 with wait := kept ++ [e], waitPopped := 0 }
-      else { k1 with wait := kept ++ [e], waitCap := 2 * k.waitCap }
+      let k1 : Key := if kept.length < len then { k with wait := kept ++ [e], waitPopped := 0 }
+                      else { k with wait := kept ++ [e], waitCap := 2 * k.waitCap }
+      dead.foldl (fun k x => k.unref x.rid) k1
 
 /-- `AddWaitLock` -/
 def Key.addWaitLock (k : Key) (rid : Nat) : Key :=
@@ -249,13 +251,13 @@ def Key.addWaitLock (k : Key) (rid : Nat) : Key :=
   let k2 := k1.waitPush ⟨rid, p⟩
   { k2.modRec rid (fun r => { r with refCount := r.refCount + 1 }) with waited := true }
 
-/-- `GetWaitLock`: tombstoned heads are popped (`refCount--`, freed at 0) -/
+/-- `GetWaitLock`: tombstoned heads are popped (`refCount--`, freed at 0). Called with the queue itself as the list argument. -/
 def waitSkip : List WEnt → Key → Key × Option Nat
-  | [], k => ({ k with wait := [] }, none)
+  | [], k => (k, none)
   | e :: rest, k =>
     if k.deadWaiter e.rid then
-      waitSkip rest ({ k with waitPopped := if k.waitPrio then k.waitPopped else k.waitPopped + 1 }.unref e.rid)
-    else ({ k with wait := e :: rest }, some e.rid)
+      waitSkip rest ({ k with wait := rest, waitPopped := if k.waitPrio then k.waitPopped else k.waitPopped + 1 }.unref e.rid)
+    else (k, some e.rid)
 
 def Key.getWaitLock (k : Key) : Key × Option Nat := waitSkip k.wait k
 
@@ -742,14 +744,17 @@ def opUnlock (db : DB) (c : Cmd) (data : Option Bytes) : DB × List Reply :=
 
 /-! ### timer sweeps -/
 
+/-- the sweeper's reference to `lock` goes: entry gone, `refCount--`, freed at 0, empty key record reclaimed -/
+def W.dropT (w : W) (rid : Nat) : W := (w.modR rid (fun r => { r with tSched := none })).unrefCheck rid
+def W.dropE (w : W) (rid : Nat) : W := (w.modR rid (fun r => { r with eSched := none })).unrefCheck rid
+
 /-- `doTimeOut(lock)` for the record the sweeper holds a reference to -/
 def W.fireTimeout (w : W) (rid : Nat) : W :=
   let r := w.k.getR rid
-  let w0 := w.modR rid (fun r => { r with tSched := none })
-  if r.timeouted then w0.unrefCheck rid
+  if r.timeouted then w.dropT rid
   else
-    let w5 := (((((w0.modR rid (fun r => { r with timeouted := true })).modK (·.settleWait)).ctr
-      (fun y => { y with waitCount := y.waitCount - 1 })).unrefCheck rid).ctr (fun y => { y with timeoutedCount := y.timeoutedCount + 1 }))
+    let w5 := (((((w.modR rid (fun r => { r with timeouted := true })).modK (·.settleWait)).ctr
+      (fun y => { y with waitCount := y.waitCount - 1 })).dropT rid).ctr (fun y => { y with timeoutedCount := y.timeoutedCount + 1 }))
     w5.reply { r.cmd with conn := r.conn } RESULT_TIMEOUT 0 w5.lockData
 
 def fireTimeout (db : DB) (key rid : Nat) : DB × List Reply :=
@@ -762,14 +767,13 @@ def deferExpiry (db : DB) (r : Rec) : Bool := !db.leader && r.isAof && db.now - 
 /-- `doExpried(lock)` -/
 def W.fireExpire (w : W) (rid : Nat) : W :=
   let r := w.k.getR rid
-  let w0 := w.modR rid (fun r => { r with eSched := none })
-  if r.expried then w0.unrefCheck rid
+  if r.expried then w.dropE rid
   else if deferExpiry w.db r then
-    -- re-armed 30 s ahead, no notice, the hold stays
-    (w0.modR rid (fun r => { r with expT := w.db.now + 30 })).addExpried rid
+    -- re-armed 30 s ahead (the popped entry is pushed again), no notice, the hold stays
+    (w.modR rid (fun r => { r with expT := w.db.now + 30 })).addExpried rid
   else
-    let w5 := ((((((w0.modR rid (fun r => { r with expried := true })).modK (fun k => { k with locked := k.locked - r.depth })).when r.isAof
-      (·.pushUnLockAof rid r.cmd false false AOF_EXPRIED)).modK (·.removeLock rid)).unrefCheck rid).ctr
+    let w5 := ((((((w.modR rid (fun r => { r with expried := true })).modK (fun k => { k with locked := k.locked - r.depth })).when r.isAof
+      (·.pushUnLockAof rid r.cmd false false AOF_EXPRIED)).modK (·.removeLock rid)).dropE rid).ctr
       (fun y => { y with lockedCount := y.lockedCount - r.depth, expriedCount := y.expriedCount + 1 }))
     (w5.reply { r.cmd with conn := r.conn } RESULT_EXPRIED 0 w5.lockData).wake
 
@@ -799,13 +803,13 @@ def eEntries (db : DB) (p : Sched → Bool) : List Ent :=
 and re-arm; due ⇒ collect (`none` = collected) -/
 def W.visitTimeout (w : W) (slot : Bool) (rid : Nat) : Option W :=
   let r := w.k.getR rid
-  if r.timeouted then some ((w.modR rid (fun r => { r with tSched := none })).unrefCheck rid)
+  if r.timeouted then some (w.dropT rid)
   else if slot && r.timeoutT > w.db.now then some ((w.modR rid (fun r => { r with tChecked := r.tChecked + 1 })).addTimeOut rid)
   else none
 
 def W.visitExpire (w : W) (slot : Bool) (rid : Nat) : Option W :=
   let r := w.k.getR rid
-  if r.expried then some ((w.modR rid (fun r => { r with eSched := none })).unrefCheck rid)
+  if r.expried then some (w.dropE rid)
   else if slot && r.expT > w.db.now then some ((w.modR rid (fun r => { r with eChecked := r.eChecked + 1 })).addExpried rid)
   else none
 
